@@ -164,7 +164,7 @@ theorem subtreeNode_explicit (X : SchemaX) (o : VOpts) (hok : OkBelowL X.base X.
     rw [subtreeNode]
     dsimp only
     obtain ⟨hlev, hkids⟩ := freshLevel_of ks hf
-    obtain ⟨n1, _⟩ := validateNew_fresh X o (cx.descend X.base before (.inner s f m ks)) ks hlev
+    obtain ⟨n1, _⟩ := validateNew_freshLevel X o (cx.descend X.base before (.inner s f m ks)) ks hlev
     have tr := implL_tr X o (cx.descend X.base before (.inner s f m ks)).keysOld (X.kidsOf (some s))
       (validateNew X o (cx.descend X.base before (.inner s f m ks)) ks).1 (okBelowL_kidsOf X hok (some s))
     have hdf : ∀ e ∈ (implL X o (cx.descend X.base before (.inner s f m ks)).keysOld (X.kidsOf (some s))
@@ -201,7 +201,7 @@ theorem validate_fresh_explicit (X : SchemaX) (o : VOpts) (t : List DNode) (hok 
     explicitPart (validate X o t).tree = explicitPart t := by
   obtain ⟨htree, _⟩ := validate_evs_eq X o t hpe
   obtain ⟨hlev, hkids⟩ := freshLevel_of t hf
-  obtain ⟨n1, _⟩ := validateNew_fresh X o {} t hlev
+  obtain ⟨n1, _⟩ := validateNew_freshLevel X o {} t hlev
   have tr := implL_tr X o {} X.top (validateNew X o {} t).1 hok
   have hdf : ∀ e ∈ (implL X o {} X.top (validateNew X o {} t).1).2.evs, e.node.flags = dfltFlags ∧ e.node.kids = [] := by
     intro e he
